@@ -8,6 +8,7 @@ use crate::build_bytes::*;
 use crate::build_faults::*;
 use crate::build_gen::*;
 use crate::build_render::*;
+use crate::build_slices::slice_decode;
 use crate::common::{guarded, Rng, Sink};
 use crate::strings;
 use crate::tree::*;
@@ -205,6 +206,14 @@ pub fn case_mode(ctx: &mut Ctx, xml: &str, fragment: bool, ex: &Expect) {
             }
             let mut c17 = BTreeSet::new();
             generic_spans(&vocab, seen, xml, &dump, &mut c17);
+            {
+                // slices and their decoding, from the source text and the tree alone
+                let mut st = vec![];
+                slice_decode(&vocab, seen, xml, &mut c17, &mut st);
+                for s in st {
+                    ctx.sink.stat(&s);
+                }
+            }
             if let Some(r) = ex.rendered {
                 if expects_here(r) && ex.fault.is_none() {
                     let mut c02 = BTreeSet::new();
